@@ -130,6 +130,14 @@ func captureSeeds(b *bubble, c rcfg) []seed {
 	// number of AES blocks and ends in 0x01 (so it also reads as validly padded)
 	must(s.M.SendBestEffort(&ml.Node{Name: twinR, Addr: ip4(2), Port: 7946, PMax: 4}, append(bytes.Repeat([]byte("u"), 46), 0x01)))
 	take("user-aligned")
+	if c.Keys != "" && c.EncVsn == 1 {
+		// ... and two whose last bytes almost read as padding (07 02 / 09 03 03): with the version byte
+		// flipped to 0 the padding check has to look at every byte of the run
+		must(s.M.SendBestEffort(&ml.Node{Name: twinR, Addr: ip4(2), Port: 7946, PMax: 4}, append(bytes.Repeat([]byte("u"), 45), 0x07, 0x02)))
+		take("user-nearpad-2")
+		must(s.M.SendBestEffort(&ml.Node{Name: twinR, Addr: ip4(2), Port: 7946, PMax: 4}, append(bytes.Repeat([]byte("u"), 44), 0x09, 0x03, 0x03)))
+		take("user-nearpad-3")
+	}
 	{
 		a, _ := ml.VEncode(ml.VAliveMsg, &ml.VAlive{Incarnation: 2, Node: "cnode", Addr: ip4(41), Port: 7946, Vsn: defaultVsn}, false)
 		must(s.M.VRawSendMsgPacket(rAddr, twinR, nil, ml.VMakeCompound([][]byte{a, append([]byte{ml.VUserMsg}, []byte("in-compound")...)})))
